@@ -72,6 +72,17 @@ pub fn sig_bad_protected() -> Item {
     // protected content {4: h''}: empty kid
     arr(vec![bwrap(&map(vec![(u(4), b(b""))])), map(vec![]), b(b"\xaa")])
 }
+/// Signatures whose protected bstr does not hold exactly one well-formed item.
+pub fn sigs_malformed_protected() -> Vec<Item> {
+    vec![
+        arr(vec![Item::Bytes(vec![0xa1, 0x01]), map(vec![]), b(b"\xaa")]),
+        arr(vec![Item::Bytes(vec![0xa1, 0x01, 0x26, 0x00]), map(vec![]), b(b"\xaa")]),
+        arr(vec![Item::Bytes(vec![0xff]), map(vec![]), b(b"\xaa")]),
+        arr(vec![Item::Bytes(vec![0x1c]), map(vec![]), b(b"\xaa")]),
+        arr(vec![Item::Bytes(vec![0xa1, 0x61, 0xff, 0x00]), map(vec![]), b(b"\xaa")]),
+    ]
+}
+
 pub fn sig_bad_unprotected() -> Item {
     arr(vec![b(b""), map(vec![(u(4), b(b""))]), b(b"\xaa")])
 }
@@ -160,6 +171,9 @@ pub fn header_pairs() -> Vec<(Item, Item)> {
         arr(vec![u(1), u(2), u(3)]),
         arr(vec![sig_valid(), sig_bad_sig()]),
         arr(vec![sig_bad_protected()]),
+        sigs_malformed_protected()[0].clone(),
+        arr(vec![sig_valid(), sigs_malformed_protected()[1].clone()]),
+        sigs_malformed_protected()[2].clone(),
         b(b"\x01"),
     ] {
         p.push((u(7), v));
@@ -454,6 +468,16 @@ pub fn msg_slots() -> Vec<Item> {
         // two elements whose header maps use the same labels (state must not leak between elements)
         arr(vec![sig_valid2(), sig_valid2()]),
         arr(vec![r_valid_nil.clone(), r_valid_nil.clone()]),
+        // nested elements whose protected bstr is malformed / truncated / has trailing bytes
+        arr(vec![sigs_malformed_protected()[0].clone()]),
+        arr(vec![sig_valid(), sigs_malformed_protected()[1].clone()]),
+        arr(vec![sigs_malformed_protected()[2].clone()]),
+        arr(vec![sigs_malformed_protected()[4].clone()]),
+        // IV in a protected bstr, Partial IV in an unprotected map (different buckets: allowed)
+        bwrap(&map(vec![(u(5), b(b"iv"))])),
+        map(vec![(u(6), b(b"piv"))]),
+        bwrap(&map(vec![(u(6), b(b"piv"))])),
+        map(vec![(u(5), b(b"iv"))]),
         // the fault in the second element of a list
         arr(vec![r_valid.clone(), r_bad.clone()]),
         arr(vec![r_valid.clone(), r_nest2_bad.clone()]),
